@@ -16,7 +16,7 @@ EXPLANATION = (
     "kind that dominate it, belongs to the allowed relation frozen in the table; ReceivePacket::ready() is constructed only on the "
     "Connecting -> Online edge.  R4 (sender bookkeeping): in queue the sequence stored in the ResendChunk and the one written into "
     "the chunk header are the same value; ack_chunks truncates at the position found by an equality test on the sequence.  "
-    "Not decided: ordering / duplication over loss, reordering and wrap-around."
+    "R1 also requires the eager scan to visit every chunk (its loop ends only on the iterator's None edge) and R4 that resend writes each retransmitted chunk with its own stored sequence number.  Not decided: ordering / duplication over loss, reordering and wrap-around."
 )
 ASSUMPTIONS = ["the application drains every event iterator (lazy replay relies on it)"]
 
@@ -112,6 +112,38 @@ def acceptance(prog, rep, ver, mod):
                 # lazy: the non-Current edge skips (recurses into next) instead of yielding
                 ok = any((t.get("callee") or "").endswith("ReceiveChunks as std::iter::Iterator>::next") for _, t in b.calls())
                 rep.ob(rule, "%s | lazy | non-Current chunk is skipped" % ver, ok, "the lazy replay skips chunks that are not the next in sequence", b.loc())
+    # the eager scan visits every chunk of the datagram: its loop is left only through the chunk iterator's None edge
+    # (an early `break` would let the lazy replay deliver chunks the bookkeeping never saw)
+    eir = IR(eager)
+    tests = _update_tests(eager, eir, mod)
+    for comp in eager.sccs():
+        if not any(t_[0] in comp for t_ in tests):
+            continue
+        cs = set(comp)
+        exits = []
+        for bi in comp:
+            for s_ in eager.succ[bi]:
+                if s_ not in cs:
+                    exits.append((bi, s_))
+        bad = []
+        for bi, s_ in exits:
+            t = eager.blocks[bi]["term"]
+            ok_exit = False
+            if t["k"] == "switch":
+                e = eir.term_operand(bi, t["o"])
+                if e[0] == "discr" and "next" in show(e[1]):
+                    ok_exit = True
+            if not ok_exit:
+                # leaving towards a panic / unwind-only block is not an early exit of the scan
+                tt = eager.blocks[s_]["term"]
+                if tt["k"] in ("unreachable",) or (tt["k"] == "call" and "panic" in (tt.get("callee") or "")):
+                    ok_exit = True
+            if not ok_exit:
+                bad.append((bi, s_))
+        rep.ob(rule, "%s | eager scan covers every chunk" % ver, not bad,
+               "the acceptance loop ends only when the chunk iterator is exhausted" if not bad else
+               "the acceptance loop can be left early (bb%d -> bb%d): later chunks of the datagram are replayed to the application without being recorded in ack" % bad[0],
+               eager.loc())
     pol = set(p for _, p in sites)
     rep.ob(rule, "%s | both sites use the same polarity" % ver, len(pol) == 1 and len(sites) >= 2, "acceptance tests: %s" % sites, None)
 
@@ -269,6 +301,25 @@ def sender(prog, rep, ver, mod):
         data = ir.term_operand(bi, t["args"][2])
         rep.ob(rule, "%s | retained data is the submitted buffer" % ver, data[0] == "arg" or show(data).strip("&*") == "buffer",
                "ResendChunk::new(cb, sequence, %s)" % show(data), q.loc(t.get("ln")))
+    # resend: each retransmitted chunk is written with its *own* stored sequence number and data (same queue element)
+    rs = prog.one(mod + "::Connection::resend")
+    rir = IR(rs)
+    wc = [(bi, t) for bi, t in rs.calls() if (t.get("callee") or "").endswith("PacketContents::write_chunk")]
+    rep.floor(rule, len(wc), 1, "%s: write_chunk in resend" % ver)
+    for bi, t in wc:
+        e = rir.call_expr(bi, t)
+        data, vit = strip_sites(e[2][1]), strip_sites(e[2][2])
+        def elem_of(x, field):
+            for y in walk(x):
+                if isinstance(y, tuple) and y and y[0] == "field" and y[2] == field:
+                    return y[1]
+            return None
+        d_el, s_el = elem_of(data, "data"), elem_of(vit, "sequence")
+        ok = d_el is not None and s_el is not None and d_el == s_el and "resend_queue" in show(d_el)
+        rep.ob(rule, "%s | resend labels a chunk with its own stored sequence" % ver, ok,
+               "write_chunk(&chunk.data, Some((chunk.sequence.to_u16(), true))) for the same queue element" if ok else
+               "resend writes data of `%s` under the sequence `%s`: a retransmission carries another chunk's number" % (show(d_el) if d_el else show(data)[:60], show(s_el) if s_el else show(vit)[:80]),
+               rs.loc(t.get("ln")))
     pf = [bi for bi, t in q.calls() if (t.get("callee") or "").endswith("VecDeque::push_front")]
     rep.ob(rule, "%s | newest chunk goes to the front of the queue" % ver, bool(pf), "resend_queue.push_front(..)", q.loc())
     a = prog.one(mod + "::OnlineState::ack_chunks")
